@@ -43,7 +43,10 @@ R.contract(f'{TS}.start_task',
     requires=['INV(self)', 'task in P(self)',
               C("implies(not isnone(maxpar(ty(task))), card(ACT(self)[ty(task)]) < unopt(maxpar(ty(task))))", 'below-limit', serves=('C04',)),
               C("subset(DD(self)[task], self.FIN)", 'deps-finished')],
-    ensures=['INV(self)'],
+    ensures=['INV(self)',
+             C("P(self) == sdel(old(P(self)), task)", 'pending -= task'),
+             C("forall('Type', lambda y: ACT(self)[y] == ite(y == ty(task), sadd(old(ACT(self))[y], task), old(ACT(self))[y]))", 'active[type] += task, other types untouched'),
+             C("task not in old(ACT(self))[ty(task)]", 'the task was not active before')],
     ghost_exit={'self.STARTED': 'self.STARTED | {task}'},
     frame=['self.pending_tasks', 'self.type_to_active_tasks'])
 
@@ -152,9 +155,11 @@ R.contract(f'{TS}.process_tasks',
 R.deffunc('OFTYPE', {'S': 'Set[Task]', 'y': 'Type'}, 'Set[Task]', '{t for t in S if ty(t) == y}',
     lemmas=[C("forall('Set[Task]','Type','Task', lambda S, y, x: OFTYPE(sadd(S, x), y) == ite(ty(x) == y, sadd(OFTYPE(S, y), x), OFTYPE(S, y)), pat=lambda S, y, x: OFTYPE(sadd(S, x), y))", 'OFTYPE-add'),
             C("forall('Set[Task]','Type','Task', lambda S, y, x: (x in OFTYPE(S, y)) == ((x in S) and (ty(x) == y)), pat=lambda S, y, x: x in OFTYPE(S, y))", 'OFTYPE-mem'),
-            C("forall('Type', lambda y: OFTYPE(typed_empty('Set[Task]'), y) == typed_empty('Set[Task]'))", 'OFTYPE-empty')])
+            C("forall('Type', lambda y: OFTYPE(typed_empty('Set[Task]'), y) == typed_empty('Set[Task]'))", 'OFTYPE-empty'),
+            C("forall('Set[Task]','Set[Task]','Type','Task', lambda S, D, y, x: OFTYPE(S - sadd(D, x), y) == ite(ty(x) == y, sdel(OFTYPE(S - D, y), x), OFTYPE(S - D, y)), pat=lambda S, D, y, x: OFTYPE(S - sadd(D, x), y))", 'OFTYPE-diff-add'),
+            C("forall('Set[Task]','Type', lambda S, y: OFTYPE(S - S, y) == typed_empty('Set[Task]'), pat=lambda S, y: OFTYPE(S - S, y))", 'OFTYPE-diff-self')])
 R.contract(f'{TS}.get_ready_tasks',
-    self_type='Obj[TaskState]', params={}, returns='List[Task]',
+    self_type='Obj[TaskState]', params={}, returns='UList[Task]',
     requires=['INV(self)'],
     ensures=[
         C("forall('Task', lambda t: implies(t in result, (t in P(self)) and empty(PD(self)[t])))", 'ready => pending and unblocked', serves=('C02', 'C01', 'C03', 'C10', 'C14')),
@@ -164,7 +169,7 @@ R.contract(f'{TS}.get_ready_tasks',
           'maximal: skipped only at the limit', serves=('C05', 'C11')),
     ],
     frame=[],
-    locals={'ready_tasks': 'List[Task]'},
+    locals={'ready_tasks': 'UList[Task]'},
     cand_locals=('task_type_counts',),
     candidates=[
         "forall('Type', lambda y: task_type_counts[y] == card(ACT(self)[y]) + card(OFTYPE(__ret__, y)))",
